@@ -4,6 +4,7 @@ import (
 	"bytes"
 	"context"
 	"encoding/binary"
+	"fmt"
 	"io"
 	"sync"
 	"time"
@@ -15,8 +16,9 @@ import (
 )
 
 const (
-	peersPath    = "spynode/peers"
-	peersVersion = 2
+	maxAddressSize = 512 // longest peer address accepted when loading
+	peersPath      = "spynode/peers"
+	peersVersion   = 2
 )
 
 // Peer address database. Used to find Tx Peers.
@@ -77,6 +79,10 @@ func (repo *PeerRepository) Load(ctx context.Context) error {
 	}
 
 	// Reset
+	// The count is only a capacity hint. Don't trust it more than the data that is actually there.
+	if count < 0 || int(count) > buffer.Len() {
+		count = 0
+	}
 	repo.list = make([]*Peer, 0, count)
 
 	// Parse peers
@@ -236,6 +242,10 @@ func readPeer(input io.Reader, version int32) (Peer, error) {
 	var addressSize int32
 	if err := binary.Read(input, binary.LittleEndian, &addressSize); err != nil {
 		return result, err
+	}
+
+	if addressSize < 0 || addressSize > maxAddressSize {
+		return result, fmt.Errorf("Invalid peer address size : %d", addressSize)
 	}
 
 	addressData := make([]byte, addressSize)
